@@ -151,6 +151,12 @@ Theorem C15_lindblad_generator_form : forall d m gam Lk G X,
         (fadd (fadd (fmul d G X) (fmul d X (fadj G)))
               (flin m (fun k => (gam k, 0)) (fun k => fmul d (Lk k) (fmul d X (fadj (Lk k)))))).
 Proof. exact lindblad_map_spec. Qed.
+(* with G = -iH - M/2, M = sum_k gamma_k L_k^dagger L_k:  G X + X G^dagger = -i[H,X] - {M,X}/2 *)
+Theorem C15_lindblad_standard_form : forall d m gam Lk H X, fherm d H ->
+  feq d (fadd (fmul d (Gstd d m gam Lk H) X) (fmul d X (fadj (Gstd d m gam Lk H))))
+        (fun i j => cadd' (cmul' (0, -1) (csub' (fmul d H X i j) (fmul d X H i j)))
+                          (cmul' (- (1 / 2), 0) (cadd' (fmul d (Msum d m gam Lk) X i j) (fmul d X (Msum d m gam Lk) i j)))).
+Proof. exact lindblad_standard_form. Qed.
 Theorem C15_lindblad_cCP : forall d, (0 < d)%nat -> forall basis S m gam Lk G x,
   basis_complete d basis ->
   (forall i j, (i < length basis)%nat -> (j < length basis)%nat ->
